@@ -71,6 +71,8 @@ func runFixtures(verif string) []string {
 	ruleSHR2(p, c, sh, funcs)
 	ruleOWN1(p, c, sh, funcs)
 	ruleOWN2(p, c, funcs)
+	ruleOWN3(p, c, funcs)
+	ruleOWN4(p, c, funcs)
 	pairs, _ := p.specPairs()
 	for _, sp := range pairs {
 		res := compareSummaries(p, Summarize(p, sp.Code), Summarize(p, sp.Spec))
@@ -80,7 +82,7 @@ func runFixtures(verif string) []string {
 	expect := map[string]string{
 		"fx.BadClock": "ND-1", "fx.BadConstSeed": "ND-2", "fx.BadMapSum": "ND-3", "fx.BadMapFirst": "ND-3",
 		"fx.BadComparator$1": "ND-4", "fx.BadGlobalWrite": "SHR-1", "fx.(*BadSource).BlankParams": "SHR-2",
-		"fx.BadUseRegistry": "SHR-1", "fx.BadClampStrict": "E5-formula", "fx.BadInPlace": "OWN-1", "fx.BadRemoveFirst": "OWN-1", "fx.BadForkedAppend": "OWN-2", "fx.BadWeightedTotal": "E5-formula",
+		"fx.BadUseRegistry": "SHR-1", "fx.BadClampStrict": "E5-formula", "fx.BadInPlace": "OWN-1", "fx.BadRemoveFirst": "OWN-1", "fx.BadForkedAppend": "OWN-2", "fx.BadTwoAppends": "OWN-3", "fx.BadSharedRange": "OWN-4", "fx.BadWeightedTotal": "E5-formula",
 	}
 	fired := map[string]map[string]bool{}
 	for _, o := range c.Obs {
